@@ -115,6 +115,48 @@ example : (run Gen.C06.streamCaught countHooks 0 ([.feed [5]] ++ .close [1, 7, 6
   (tasks_end_mid_packet Gen.C06.streamCaught countHooks 0 [.feed [5]] (by decide) [1, 7, 6, 0, 9, 4] [.feed [1, 2, 3, 4]]).2.2.trans
     (by decide)
 
+/-- **tasks_transport_error (2, 3).**  The transport sets an exception (connection reset, anything) on an open
+    connection: `run()` ends - through its `except` clause when the class is named there (a reset: `shutdown`), with
+    that exception otherwise - `main_loop` cleans up on either path, and whatever happens afterwards the tasks ever
+    created are exactly the complete packets received before the error; on the next turn all of them have been
+    delivered. -/
+theorem tasks_transport_error (caught : List RdErr) (H : Hooks σ) (a : σ) (h : List Ev) (hq : h.all Ev.quiet = true)
+    (e : RdErr) (more : List Ev) :
+    let st := run caught H a (h ++ .exc e :: more)
+    st.face.status = StreamReader.handled caught e ∧
+    st.processed ++ st.queue = (frames (fed h)).1 ∧
+    (run caught H a (h ++ .exc e :: more ++ [.turn])).processed = (frames (fed h)).1 := by
+  obtain ⟨ho, _, hs⟩ := quiet_run caught H a h hq
+  obtain ⟨c1, c2⟩ := exc_open caught H ho e
+  have hne : (step caught H (run caught H a h) (.exc e)).face.status ≠ .running := by
+    rw [c1]; exact handled_ne_running _ _
+  obtain ⟨e1, e2⟩ := runFrom_ended caught H more _ hne
+  have hst : run caught H a (h ++ .exc e :: more) =
+      FaceTasks.runFrom caught H (step caught H (run caught H a h) (.exc e)) more := by
+    simp only [run, FaceTasks.runFrom_append, FaceTasks.runFrom]
+  refine ⟨by rw [hst, e2, c1], by rw [hst]; exact (e1.trans c2).trans hs, ?_⟩
+  have : h ++ .exc e :: more ++ [.turn] = (h ++ .exc e :: more) ++ [.turn] := by simp
+  rw [this, run, FaceTasks.runFrom_append]
+  show (step caught H (run caught H a (h ++ .exc e :: more)) .turn).processed = _
+  rw [(turn_processed caught H _).1, hst]
+  exact (e1.trans c2).trans hs
+
+example : (run Gen.C06.streamCaught countHooks 0 ([.feed [5, 1, 7, 6]] ++ .exc .connectionReset :: [.feed [0]] ++ [.turn])).processed
+    = [(5, [5, 1, 7])] :=
+  (tasks_transport_error Gen.C06.streamCaught countHooks 0 [.feed [5, 1, 7, 6]] (by decide) .connectionReset [.feed [0]]).2.2.trans
+    (by decide)
+
+/-- **tasks_ended_not_running.**  In every history: once `run()` has ended - end of stream, transport error, or the
+    `while self.running` test after `shutdown()` - `face.running` is False. -/
+theorem tasks_ended_not_running (caught : List RdErr) (H : Hooks σ) (a : σ) (h : List Ev)
+    (hne : (run caught H a h).face.status ≠ .running) : (run caught H a h).running = false :=
+  endedStopped_runFrom caught H h (fun hn => absurd (StreamReader.sim_start caught).running hn) hne
+
+example : (run Gen.C06.streamCaught countHooks 0 ([.feed [5]] ++ .close [] :: [])).running = false :=
+  tasks_ended_not_running _ _ _ _ (by
+    rw [(tasks_end_mid_packet Gen.C06.streamCaught countHooks 0 [.feed [5]] (by decide) [] []).1, stream_caught_sufficient.1]
+    simp)
+
 /-- **tasks_shutdown_guarantee (3).**  What the code guarantees around `shutdown()`: the application shuts down an open
     connection, then anything happens (`more`), then the loop makes a turn.  (i) Every packet completely received
     before the shutdown instant has been delivered - the tasks in the ready queue at that instant are neither cancelled
